@@ -53,7 +53,14 @@ pub fn gen_tokens(u: &mut Unstructured, kind: Kind, max: usize) -> arbitrary::Re
         let tok = match k {
             0..=5 => {
                 let sym = *u.choose(&syms)?;
-                let width = if u.coin(1, 6)? { 6 + u.below(5)? as usize } else { 1 + u.below(5)? as usize };
+                let width = if u.coin(1, 40)? {
+                    // widths at and around the sizes where a length is capped or narrowed
+                    (*u.choose(&[15usize, 16, 17, 31, 32, 33, 63, 64, 65, 127, 128, 129, 255, 256, 257, 1023, 1024, 1025, 4096, 65_535, 65_536, 65_537])? as i64 + u.range_i64(-1, 1)?) as usize
+                } else if u.coin(1, 6)? {
+                    6 + u.below(5)? as usize
+                } else {
+                    1 + u.below(5)? as usize
+                };
                 Tok::Field { sym, width }
             }
             6 | 7 => {
@@ -65,7 +72,13 @@ pub fn gen_tokens(u: &mut Unstructured, kind: Kind, max: usize) -> arbitrary::Re
                 Tok::Lit(s)
             }
             8 => {
-                let len = 1 + u.below(6)? as usize;
+                let len = if u.coin(1, 40)? { *u.choose(&[31usize, 32, 33, 255, 256, 257, 4096, 65_535, 65_536, 65_537])? } else { 1 + u.below(6)? as usize };
+                if len > 6 {
+                    // long quoted text: one character repeated (keeps the byte budget of the case)
+                    let ch = if u.coin(1, 3)? { random_non_ascii(u)? } else { *u.choose(QUOTED_CHARS)? };
+                    toks.push(Tok::Quoted(std::iter::repeat(ch).take(len).collect()));
+                    continue;
+                }
                 let mut s = String::new();
                 for _ in 0..len {
                     s.push(if u.coin(1, 6)? { random_non_ascii(u)? } else { *u.choose(QUOTED_CHARS)? });
